@@ -414,6 +414,9 @@ def run_check(modname, tier, seed, replay=None):
         "wall_s": round(wall, 3),
         "violations": int(len(unexplained)),
     }
+    if getattr(module, "ENUMERATED", {}).get(tier):
+        # a completely enumerated sub-space next to randomised cases (schedules are not enumerated)
+        evidence["coverage"]["enumerated_subspace"] = module.ENUMERATED[tier]
     if getattr(module, "EXHAUSTIVE", {}).get(tier):
         evidence["coverage"]["exhaustive"] = True
         evidence["coverage"]["exhaustive_scope"] = module.EXHAUSTIVE[tier]
